@@ -98,7 +98,8 @@ def run(prop, tier, seed, replay=None):
         traces.append([dict(kind="text", fault="canary", out="IndexError", exc={"cls": "IndexError", "fam": ["IndexError", "LookupError", "Exception"], "stage": "parse-or-interpret"})])
         traces.append([dict(kind="fault", fault="unknown-variable", out="QueryFunctionException", exc={"cls": "QueryFunctionException", "fam": ["QueryFunctionException", "QueryException", "Exception"], "stage": "resolve"})])
         ncan = 2
-    acc, rej, stats = tlc.judge("AwQueryTrace", JUDGE, traces, tag="judge_c17", heap="10g")
+    # at most 300 000 records per TLC run: one run over 1.4 million records (thorough tier) spent its time in garbage collection
+    acc, rej, stats = tlc.judge("AwQueryTrace", JUDGE, traces, tag="judge_c17", heap="10g", chunk=150)
     rep.add_judge_stats(stats)
     nreal = len(traces) - ncan
     for ci in range(nreal, nreal + ncan):
